@@ -1,17 +1,19 @@
 """C19 - state is a deterministic function of history and survives export/import.
-Specs: spec/Replica.tla (2 replicas + importer over an abstract deterministic application; with the
-nondeterminism switch on TLC must find disagreement), spec/trace/TraceReplica.tla (merged logs of
-several OS processes executing the same seeded workload from one genesis file, plus two importers
-started from the state one of them exported)."""
+Specs: spec/Replica.tla (2 replicas + importer over an abstract deterministic application with a volatile
+component that any node may lose at any step; with the nondeterminism switch or the stale-memo switch on TLC
+must find disagreement), spec/trace/TraceReplica.tla (merged logs of several OS processes executing the same
+seeded workload of SIGNED TRANSACTIONS from one genesis file - plain replicas, replicas that re-open their
+application over their own database at some blocks, replicas that also run the mempool / proposal handlers -
+plus four importers started from the state one of them exported)."""
 import glob, json, os, subprocess, time, concurrent.futures
 import vlib
 from vlib import Infra, Violation, log
 
 MANIFEST = {
     "engine": "tlc+go-harness", "design_ref": "DESIGN.md section 4 (C19)",
-    "technique": "TLA+ replica/importer model (Replica.tla) model-checked with a nondeterminism witness; per-block digests of N OS processes + 2 importers trace-validated by TLC; differing exported modules classified field by field",
-    "text": "A seeded workload (pure data: bank, lockup, gamm, poolmanager routes, concentrated liquidity, tokenfactory, incentives gauges; block times crossing hour/day epochs) is executed from one genesis file by several OS processes (fresh Go map seeds, GOMAXPROCS 1..16, GOGC varied): messages through the MsgServiceRouter like DeliverTx, then FinalizeBlock (begin/end blockers, epochs, twap, mint, distributions) and Commit. TLC requires bit-identical app hash, per-transaction result digests (data + events or error text) and block events for every block across replicas, identical module-by-module exports at the export height and at the end, and - for two importers started by InitChain from the exported state - the same transaction results and events for every later block, identical app hashes between the two importers, and module state equal to the exporter's right after import and at the end (field-level differences are classified; re-anchored heights are listed findings).",
-    "note": "Schedules are sampled (N processes), not enumerated: an iteration-order bug that needs more than N runs to show can be missed. Ante handlers/signatures are outside this path and outside the property. The importer runs with crisis genesis invariants skipped (crisis precedes the osmosis modules in the InitGenesis order, so they cannot pass on any non-trivial genesis). ibc's localhost client height is third-party state that tracks the current height.",
+    "technique": "TLA+ replica/importer/restart model (Replica.tla) model-checked with two non-vacuity witnesses (hidden nondeterministic bit; stale in-memory memo trusted by a warm node); per-block digests of N OS processes (replicas, restarters, proposers) + 4 importers trace-validated by TLC; differing exported modules classified field by field",
+    "text": "A seeded workload (pure data: bank, lockup, gamm balancer + stableswap, poolmanager routes, concentrated liquidity, tokenfactory, incentives gauges, staking delegation, a governance parameter change voted through; block times crossing hour/day epochs) is executed from one genesis file by several OS processes (fresh Go map seeds, GOMAXPROCS 1..16, GOGC varied). Every operation is a signed sdk transaction (secp256k1 keys, account numbers and sequences read from the node's own committed state, gas limits from ample to exhausted inside the ante handler, fees exactly at the consensus minimum / generous / zero / one unit short / in the whitelisted fee tokens uion and atom / in a non-fee token / beyond the payer's balance, wrong sequences, multi-message transactions some of whose LAST message fails) delivered through FinalizeBlock(Txs) + Commit: ante handlers (x/txfees, x/smart-account circuit breaker, signatures, sequences), messages in ExecModeFinalize and post handlers (x/protorev, x/smart-account) all run. Under-funded accounts and failing trailing messages produce pool creations that fail AFTER their hooks ran; the pool id is then given to a pool of another type and used. Roles: plain replicas; restarters that discard their application object before 3 blocks and re-open a new one over the same database (cold in-memory caches); proposers that push every transaction through CheckTx and every block through PrepareProposal/ProcessProposal first. TLC requires the same signed bytes, bit-identical app hash, per-transaction result digests (code, codespace, gas wanted, gas used, data, events) and block events for every block across all of them, identical module-by-module exports at the export heights and at the end, and - for four importers started by InitChain from the exported state (their transactions signed with the sequences of the imported state) - the same transaction results and events for every later block, identical app hashes among the importers, and module state equal to the exporter's right after import and at the end (field-level differences are classified; re-anchored heights are listed findings). A scripted probe history (a concentrated pool becomes protorev's highest-liquidity pool of its pair, export, then a swap protorev back-runs through it) with two replicas and two importers is validated the same way.",
+    "note": "Schedules are sampled (N processes), not enumerated: an iteration-order bug that needs more than N runs to show can be missed. Result logs (error texts) are not compared: only code, codespace, gas, data and events are results. The importer runs with crisis genesis invariants skipped (crisis precedes the osmosis modules in the InitGenesis order, so they cannot pass on any non-trivial genesis). ibc's localhost client height is third-party state that tracks the current height. The two fee-token pools and the permissionless-concentrated-pool switch are written into the genesis-time state by keeper calls, identically on every replica (importers receive them through the export). Listed deviations are validated under their own rule (TraceReplicaKnown.cfg) only after the strict rule of the property (TraceReplica.cfg) rejected a transaction result, and everything they do not explain stays a violation: gas used of a transaction naming the pool id of a reverted creation (warm vs cold node), gas used on an importer vs the exporter, and an importer whose protorev back-runs differ (its import point is then abandoned for the next one). A restart re-opens the application inside the same OS process: package-level Go state survives it (importers, separate processes, are cold in that respect too).",
 }
 BUILD = [("./app/replica/", "replica")]
 
@@ -42,13 +44,20 @@ def run(ctx):
     q = ctx.quick
     cov = {"samples": []}
     ctx.leg = "mc"
-    cfg = "SPECIFICATION Spec\nCONSTANTS\n  Replicas = {1, 2}\n  Importer = 3\n  NBlocks = %d\n  Nondet = %s\nINVARIANTS Agreement ImportFaithful\nCHECK_DEADLOCK FALSE\n"
-    r = vlib.tlc("MCReplica.tla", "mc.cfg", workers=8, timeout=900, tag="C19-mc", cfg_text=cfg % (5 if q else 7, "FALSE"))
+    cfg = "SPECIFICATION Spec\nCONSTANTS\n  Replicas = {1, 2}\n  Importer = 3\n  NBlocks = %d\n  Nondet = %s\n  Stale = %s\nINVARIANTS %s\nCHECK_DEADLOCK FALSE\n"
+    both = "Agreement ImportFaithful"
+    r = vlib.tlc("MCReplica.tla", "mc.cfg", workers=8, timeout=900, tag="C19-mc", cfg_text=cfg % (5 if q else 7, "FALSE", "FALSE", both))
     vlib.tlc_must_pass(r, "MCReplica")
-    w = vlib.tlc("MCReplica.tla", "mc.cfg", workers=4, timeout=900, tag="C19-mcw", cfg_text=cfg % (3, "TRUE"))
+    w = vlib.tlc("MCReplica.tla", "mc.cfg", workers=4, timeout=900, tag="C19-mcw", cfg_text=cfg % (3, "TRUE", "FALSE", both))
     if w.error or w.violated != "Agreement":
         raise Infra("non-vacuity witness: a nondeterministic step did not break Agreement (%s)" % (w.error or w.violated))
-    log("MC: %d distinct states agree; with a nondeterministic step TLC finds disagreement (as it must)" % r.distinct)
+    for inv in ("Agreement", "ImportFaithful"):
+        w = vlib.tlc("MCReplica.tla", "mc.cfg", workers=4, timeout=900, tag="C19-mcs", cfg_text=cfg % (3, "FALSE", "TRUE", inv))
+        if w.error or w.violated != inv:
+            raise Infra("non-vacuity witness: a stale memo trusted by a warm node did not break %s against a restarted / "
+                        "importing node (%s)" % (inv, w.error or w.violated))
+    log("MC: %d distinct states agree under restarts at any step; with a nondeterministic step, or with a stale memo "
+        "influencing a result, TLC finds disagreement (as it must)" % r.distinct)
 
     binary = vlib.build_test("./app/replica/", "replica")
     d = vlib.scratch("C19-run")
@@ -61,19 +70,83 @@ def run(ctx):
     states = r.distinct
     trans = r.generated
     total_blocks = total_tx = total_ok = 0
-    stats = {}
-    import_refused = imports_ok = import_dur = import_unsorted = 0
+    counts = {"ante_failures": 0, "multi_message_txs": 0, "multi_message_reverted_txs": 0, "restarts": 0,
+              "txs_naming_pool_id_of_reverted_creation": 0, "txs_backrun_by_protorev": 0}
+    stats, rstats, pstats = {}, {}, {}
+    roles = ["replica", "replica", "restarter", "proposer", "restarter", "replica", "restarter", "proposer"]
+    import_refused = imports_ok = import_dur = import_unsorted = import_diverged = 0
     import random
     rnd = random.Random(ctx.seed)
+    def validate(files, what, wseed):
+        """Trace-validate the merged logs: first with the rule of the property; if that rejects a transaction result,
+        again under the listed deviating rules (TraceReplicaKnown.cfg) - anything they do not explain is a violation.
+        Returns (TLC result, listed deviations that occurred)."""
+        nonlocal states, trans
+        merged = os.path.join(d, "%s.ndjson" % what)
+        with open(merged, "w") as g:
+            for o in files:
+                g.write(open(o).read())
+        lines = open(merged).read().split("\n")
+
+        def reject(res, rule):
+            ln = res.rejected_line
+            ev = lines[ln - 1] if ln and ln <= len(lines) else None
+            w = "replicas disagree: " + (res.failed_checks[-1] if res.failed_checks else "recorded line rejected")
+            raise Violation("C19", w, {"workload_seed": wseed, "trace": what, "trace_line": ln, "offending_event": ev, "rule": rule,
+                                       "failed_checks": res.failed_checks}, "replica:" + w)
+        res = vlib.tlc("TraceReplica.tla", "TraceReplica.cfg", workers=1, timeout=1200, env={"TRACE_FILE": merged}, tag="C19-trace", keep=True)
+        if res.error:
+            raise Infra("TraceReplica: " + res.error)
+        states += res.distinct
+        trans += res.generated
+        if res.ok:
+            return res, []
+        if not any("transaction results identical" in c for c in res.failed_checks[-1:]):
+            reject(res, "TraceReplica.cfg")
+        strict = res
+        res = vlib.tlc("TraceReplica.tla", "TraceReplicaKnown.cfg", workers=1, timeout=1200, env={"TRACE_FILE": merged}, tag="C19-trace", keep=True)
+        if res.error:
+            raise Infra("TraceReplica (listed deviations): " + res.error)
+        if not res.ok:
+            reject(res, "TraceReplicaKnown.cfg")
+        devs = sorted(set(p for p in res.prints if "KNOWN-DEV" in p))
+        ln = strict.rejected_line
+        det = {"workload_seed": wseed, "trace": what, "first_rejected_trace_line": ln,
+               "offending_event": lines[ln - 1] if ln and ln <= len(lines) else None}
+        for kind, sig, txt in (
+                ("stale-route-gas", "restart:poolmanager-route-cache:gas-used-of-tx-naming-pool-id-of-reverted-creation",
+                 "a node that restarted (or was initialised from an export) reports a different gas used than a node that did not, "
+                 "for a transaction naming the pool id a reverted pool creation had been given"),
+                ("import-gas", "import:gas-used:raw-store-layout-not-preserved",
+                 "an importer reports a different gas used than the exporter for later transactions (code, data, events equal; "
+                 "importers of one export agree among themselves)"),
+                ("import-protorev", "import:protorev:highest-liquidity-pools-not-restored:backrun-differs",
+                 "the protorev post handler back-runs a transaction on the exporter and not on a node initialised from its "
+                 "export (or vice versa): results, events and state differ from there on")):
+            hit = [p for p in devs if kind in p]
+            if hit:
+                ctx.finding(sig, txt, dict(det, deviations=hit[:20]))
+                counts["listed_deviation:" + kind] = counts.get("listed_deviation:" + kind, 0) + len(hit)
+        return res, devs
+
+
     for wi in range(nwl):
         wseed = ctx.seed * 100 + wi
         export_points = sorted(rnd.sample(range(nblocks // 2, nblocks - 5), 3) + [rnd.randrange(12, nblocks // 2)])
         dump = os.path.join(d, "dump%d" % wi)
         outs = []
+        # crash points: the first restarter loses its memory right after the scripted failed pool creation (block 2)
+        # and at two random blocks, the others at three random blocks
+        restart_points = {}
+        for i in range(1, nrep + 1):
+            if roles[(i - 1) % 8] == "restarter":
+                restart_points[i] = sorted(rnd.sample(range(4, nblocks), 2) + [3]) if not restart_points else \
+                    sorted(rnd.sample(range(1, nblocks), 3))
 
         def rep(i):
             out = os.path.join(d, "w%d-r%d.ndjson" % (wi, i))
             env = {"VERIF_GENESIS": gen, "VERIF_OUT": out, "VERIF_SEED": wseed, "VERIF_BLOCKS": nblocks, "VERIF_REPLICA": i,
+                   "VERIF_ROLE": roles[(i - 1) % 8], "VERIF_RESTART_AT": ",".join(map(str, restart_points.get(i, []))),
                    "GOMAXPROCS": [1, 16, 2, 4, 8, 3, 16, 1][(i - 1) % 8], "GOGC": [100, 20, 400, 50, 10, 200, 30, 100][(i - 1) % 8]}
             if i == 1:
                 env.update({"VERIF_EXPORT_AT": ",".join(map(str, export_points)),
@@ -85,8 +158,36 @@ def run(ctx):
         with concurrent.futures.ThreadPoolExecutor(max_workers=min(nrep, 8)) as ex:
             outs = list(ex.map(rep, range(1, nrep + 1)))
 
-        # importers: try the export points in order; an export the fresh node refuses is a finding
-        export_at = None
+        # what the first replica reached; restarts and role-specific counters of the others
+        def add_stats(acc, st):
+            for k, v in st.items():
+                acc[k] = max(acc.get(k, 0), v) if k.startswith("max") else acc.get(k, 0) + v
+        for ln in open(outs[0]):
+            e = json.loads(ln)
+            if e["e"] == "export" and e.get("final"):
+                add_stats(stats, e.get("stats", {}))
+            if e["e"] == "block":
+                total_blocks += 1
+                total_tx += e["ntx"]
+                total_ok += e["nok"]
+                counts["ante_failures"] += e["nante"]
+                counts["multi_message_txs"] += e["nmulti"]
+                counts["multi_message_reverted_txs"] += e["nmultirev"]
+                counts["txs_naming_pool_id_of_reverted_creation"] += len(e["stale"])
+                counts["txs_backrun_by_protorev"] += len(e["backrun"])
+                if len(cov["samples"]) < 3 and e["ntx"] > 2:
+                    cov["samples"].append({k: e[k] for k in ("blk", "h", "app", "txs", "txb", "ev")})
+        for i in range(1, nrep + 1):
+            role = roles[(i - 1) % 8]
+            for ln in open(outs[i - 1]):
+                if role == "restarter" and '"e":"restart"' in ln:
+                    counts["restarts"] += 1
+                if role != "replica" and '"final":true' in ln:
+                    add_stats(rstats if role == "restarter" else pstats, json.loads(ln).get("stats", {}))
+
+        # importers: try the export points in order; an export the fresh node refuses is a finding, and so is an import
+        # after which protorev back-runs differently (the importer's history is then its own: take the next point)
+        export_at, res = None, None
         for cand in export_points:
             def imp(i, cand=cand):
                 out = os.path.join(d, "w%d-i%d-b%d.ndjson" % (wi, i, cand))
@@ -101,14 +202,16 @@ def run(ctx):
             if failed:
                 import re
                 err = failed[0]["err"]
-                mod = re.search(r"x/([a-z-]+)", err)
                 core = re.sub(r"[0-9][0-9.]*", "N", err.split("[recovered]")[0])[:120]
                 ctx.finding("import-refused:" + core.strip(), "a fresh node refuses the state exported after block %d: %s" % (cand, err[:300]),
                             {"workload_seed": wseed, "export_after_block": cand, "error": err})
                 import_refused += 1
                 continue
+            res, devs = validate(outs + iouts, "w%d-all-b%d" % (wi, cand), wseed)
+            if any("import-protorev" in p for p in devs):
+                import_diverged += 1
+                continue
             export_at = cand
-            outs += iouts
             for ln in open(outs[0]):
                 e = json.loads(ln)
                 if e["e"] == "export" and e["blk"] == cand:
@@ -116,37 +219,14 @@ def run(ctx):
                     import_unsorted += e.get("stats", {}).get("maxActiveGaugeRefsOutOfIdOrder", 0)
             break
         if export_at is None:
-            log("workload %d: every export point was refused by the importer (listed finding); replica agreement still checked" % wi)
+            log("workload %d: no export point gave importers that stay on the common history (listed findings); replica "
+                "agreement still checked" % wi)
             export_at = -1
+            if res is None:
+                res, devs = validate(outs, "w%d-replicas" % wi, wseed)
+            res.prints = []
         else:
             imports_ok += 1
-        merged = os.path.join(d, "w%d-all.ndjson" % wi)
-        with open(merged, "w") as g:
-            for o in outs:
-                g.write(open(o).read())
-        for ln in open(outs[0]):
-            e = json.loads(ln)
-            if e["e"] == "export" and e.get("final"):
-                for k, v in e.get("stats", {}).items():
-                    stats[k] = max(stats.get(k, 0), v) if k.startswith("max") else stats.get(k, 0) + v
-            if e["e"] == "block":
-                total_blocks += 1
-                total_tx += e["ntx"]
-                total_ok += e["nok"]
-                if len(cov["samples"]) < 3 and e["ntx"] > 2:
-                    cov["samples"].append({k: e[k] for k in ("blk", "h", "app", "txs", "ev")})
-        res = vlib.tlc("TraceReplica.tla", "TraceReplica.cfg", workers=1, timeout=1200, env={"TRACE_FILE": merged}, tag="C19-trace", keep=True)
-        if res.error:
-            raise Infra("TraceReplica: " + res.error)
-        states += res.distinct
-        trans += res.generated
-        if not res.ok:
-            ln = res.rejected_line
-            lines = open(merged).read().split("\n")
-            ev = lines[ln - 1] if ln and ln <= len(lines) else None
-            what = "replicas disagree: " + (res.failed_checks[-1] if res.failed_checks else "recorded line rejected")
-            raise Violation("C19", what, {"workload_seed": wseed, "trace_line": ln, "offending_event": ev,
-                                          "failed_checks": res.failed_checks}, "replica:" + what)
         # module-level differences between importer and exporter -> field-level signatures
         for p in res.prints:
             if "IMPORT-DIFF" not in p:
@@ -168,10 +248,42 @@ def run(ctx):
                     ctx.finding(sig, "after export/import module %s reports a different %s (exporter %s, importer %s; %s)"
                                 % (m, path, json.dumps(x)[:80], json.dumps(y)[:80], kind),
                                 {"workload_seed": wseed, "export_at_block": export_at, "module": m, "path": path, "kind": kind})
-        log("workload %d (seed %d, %d blocks, import after block %d): %d replicas + 4 importers agree" % (wi, wseed, nblocks, export_at, nrep))
-    for need in ("lockGaugesThatPaid", "clPositions", "locks", "pools", "factoryDenoms", "epoch:day"):
+        log("workload %d (seed %d, %d blocks, import after block %d): %d full replicas (%s) + 4 importers agree"
+            % (wi, wseed, nblocks, export_at, nrep, ", ".join(roles[(i - 1) % 8] for i in range(1, nrep + 1))))
+    # scripted probe of the export/import leg: protorev's highest-liquidity pool of a pair is a concentrated pool, the state
+    # is exported, and the next block holds a swap protorev back-runs through that pool (listed finding while the importer
+    # does not restore the index; the strict rule applies to everything else in the probe)
+    ctx.leg = "probe"
+
+    def probe_run(i, imp):
+        out = os.path.join(d, "probe-%s%d.ndjson" % ("i" if imp else "r", i))
+        env = {"VERIF_WORKLOAD": "protorev-import", "VERIF_OUT": out, "VERIF_SEED": 0, "VERIF_BLOCKS": 5, "VERIF_REPLICA": (100 if imp else 0) + i}
+        if imp:
+            env["VERIF_IMPORT_FILE"] = os.path.join(d, "probe-export.json.2")
+        else:
+            env.update({"VERIF_GENESIS": gen, "VERIF_EXPORT_AT": "2", "VERIF_EXPORT_FILE": os.path.join(d, "probe-export.json")})
+        vlib.run_test(binary, "TestReplica", env, timeout=600)
+        return out
+    pouts = [probe_run(1, False), probe_run(2, False)]
+    with concurrent.futures.ThreadPoolExecutor(max_workers=2) as ex:
+        pouts += list(ex.map(lambda i: probe_run(i, True), [1, 2]))
+    if not any('"backrun":[1]' in l for l in open(pouts[0])):
+        raise Infra("the protorev import probe did not produce a back-run on the exporter: the probe is vacuous")
+    validate(pouts, "probe-protorev-import", 0)
+    ctx.leg = "trace"
+    for need in ("lockGaugesThatPaid", "clPositions", "locks", "pools", "factoryDenoms", "epoch:day",
+                 "anteFailures", "feesPaidInFeeToken", "outOfGasInMessages", "failedPoolCreations", "failedThenSucceededPoolIds",
+                 "opsOnFailedThenSucceededPools", "poolCreationFeeChangedByGovernance"):
         if stats.get(need, 0) == 0:
             raise Infra("workloads never reached '%s': the determinism check would be vacuous there" % need)
+    for need in ("ante_failures", "multi_message_reverted_txs", "restarts", "txs_naming_pool_id_of_reverted_creation"):
+        if counts.get(need, 0) == 0:
+            raise Infra("workloads never produced '%s': the determinism check would be vacuous there" % need)
+    if rstats.get("restartsAfterFailedCreation", 0) == 0:
+        raise Infra("no replica restarted after a pool creation that failed after its hooks: in-memory state that survives a "
+                    "reverted transaction was never compared with a cold node")
+    if pstats.get("proposalsPrepared", 0) == 0 or pstats.get("checkTxOk", 0) == 0:
+        raise Infra("the proposer role never got a transaction through CheckTx / a block through PrepareProposal")
     if import_dur < 11:
         raise Infra("no import happened at a state with more than 10 distinct lock durations on one denom (max %d): "
                     "the rebuilt accumulation trees never split" % import_dur)
@@ -183,16 +295,27 @@ def run(ctx):
     cov["reached"] = stats
     if imports_ok == 0:
         raise Infra("no export could be imported in any workload: the import leg did not run")
-    cov["imports_ok"], cov["imports_refused"] = imports_ok, import_refused
+    cov["imports_ok"], cov["imports_refused"], cov["imports_left_common_history_by_listed_protorev_deviation"] = imports_ok, import_refused, import_diverged
     if total_ok < 10 * nwl:
         raise Infra("workloads execute too few successful transactions (%d)" % total_ok)
-    cov.update({"states": states, "transitions": trans, "traces_validated_against_impl": nwl * (nrep + 4),
-                "workloads": nwl, "blocks_per_workload": nblocks, "os_processes": nwl * (nrep + 4),
-                "transactions": total_tx, "transactions_ok": total_ok, "known_finding_hits": dict(ctx.known_hit),
+    cov.update(counts)
+    cov.update({"states": states, "transitions": trans, "traces_validated_against_impl": nwl * (nrep + 4) + 4,
+                "workloads": nwl, "blocks_per_workload": nblocks, "os_processes": nwl * (nrep + 4) + 4,
+                "transactions": total_tx, "transactions_ok": total_ok, "blocks": total_blocks,
+                "roles_per_workload": [roles[(i - 1) % 8] for i in range(1, nrep + 1)] + ["importer"] * 4,
+                "failed_pool_creations": stats.get("failedPoolCreations", 0),
+                "failed_then_succeeded_pool_ids": stats.get("failedThenSucceededPoolIds", 0),
+                "ops_on_failed_then_succeeded_pools": stats.get("opsOnFailedThenSucceededPools", 0),
+                "fees_paid_in_fee_token": stats.get("feesPaidInFeeToken", 0),
+                "restarts_after_a_failed_creation": rstats.get("restartsAfterFailedCreation", 0),
+                "proposer": {k: pstats.get(k, 0) for k in ("checkTxOk", "checkTxRefused", "proposalsPrepared", "proposalTxs",
+                                                            "proposalsAccepted", "proposalPanics")},
+                "known_finding_hits": dict(ctx.known_hit),
                 "checker_cmd": "bin/check C19 --tier " + ctx.tier})
     vlib.write_evidence("C19", ctx.tier, ctx.seed, "model_checking", cov, time.time() - ctx.t0,
                         ["TLC", "each replica is a separate OS process (own Go map seeds); schedules sampled, not enumerated",
-                         "messages run through the MsgServiceRouter on a branch, then FinalizeBlock + Commit; ante handlers outside the path",
+                         "every operation is a signed transaction delivered through FinalizeBlock(Txs) + Commit (ante and post handlers run); result logs are not compared",
+                         "crash points are sampled (3 per restarter); a restart re-opens the application over the same in-memory database object",
                          "importer started with crisis genesis invariants skipped"])
 
 
